@@ -40,7 +40,9 @@ def darr(X, row_chunks, col_chunks=None):
 
 
 def note(ctx, case, iters, extra=()):
-    ch = case["chunks"]
+    ch = [c_ for c_ in case["chunks"] if c_] or [0]
+    if 0 in case["chunks"]:
+        ctx.event("empty-chunk")
     s = case["sched"]
     ctx.note(len(ch) >= 2 and len(set(ch)) >= 2 and iters >= 2 and (s["isolate"] or s["order"] != "fifo"),
              "chunks=%d" % min(len(ch), 6), "single-row-chunk" if 1 in ch else None,
@@ -64,7 +66,7 @@ def g_km(draw):
             c["init"] = {"method": "random", "init": None, "seed": c["init"]["seed"]}
     c["thr"] = gen.choice(draw, [None, 1e-1, 1e-2, 0.3, 1e-5])
     c["cap"] = gen.choice(draw, [1, 2, 3, 5, 8, 12])
-    c["chunks"] = gen.composition(draw, X.shape[0], max_parts=6)
+    c["chunks"] = gen.with_empty_chunks(draw, gen.composition(draw, X.shape[0], max_parts=6))
     c["fchunks"] = gen.composition(draw, X.shape[1], max_parts=3)
     c["sched"] = schedule(draw)
     return c
@@ -116,7 +118,7 @@ def g_gmm(draw):
     c["thr"] = gen.choice(draw, [None, 1e-2, 1e-1, 1e-3, 3e-2])
     c["cap"] = gen.choice(draw, [1, 2, 3, 5, 8])
     c["relevance"] = float(10.0 ** gen.integer(draw, -1, 2))
-    c["chunks"] = gen.composition(draw, c["X"].shape[0], max_parts=6)
+    c["chunks"] = gen.with_empty_chunks(draw, gen.composition(draw, c["X"].shape[0], max_parts=6))
     c["fchunks"] = gen.composition(draw, c["X"].shape[1], max_parts=3)
     c["sched"] = schedule(draw)
     if c["trainer"] == "map":
@@ -218,7 +220,8 @@ def g_lin(draw):
     X, r = full_rank_data(draw, n, F)
     cls = np.concatenate([np.full(s, i) for i, s in enumerate(sizes)])
     perm = np.array(gen.permutation(draw, n))
-    return {"X": X[perm], "y": cls[perm], "chunks": gen.composition(draw, n, max_parts=5), "sched": schedule(draw),
+    return {"X": X[perm], "y": cls[perm], "chunks": gen.with_empty_chunks(draw, gen.composition(draw, n, max_parts=5)),
+            "sched": schedule(draw),
             "pinv": gen.choice(draw, [False, False, True])}
 
 
